@@ -52,6 +52,8 @@ def gen_value(rng, regs, depth=2):
     return ['ref', rng.choice([[], [], ['s1'], ['s1', 's2']]), rng.choice(regs)['sel'], rng.random() < 0.5]
   if r < 0.8:
     return ['macro', rng.choice(['mm', 'nn'])]
+  if r < 0.84:
+    return ['float', rng.choice(['inf', '-inf', 'nan', '1.5', '1e+30', '-0.0'])]
   if r < 0.88:
     return ['obj', 'o1']
   if r < 0.93:
@@ -61,7 +63,7 @@ def gen_value(rng, regs, depth=2):
 
 def textable(v):
   t = v[0]
-  if t in ('obj', 'badrepr'):
+  if t in ('obj', 'badrepr', 'float'):
     return False
   if t in ('l', 't'):
     return all(textable(x) for x in v[1])
@@ -101,6 +103,8 @@ class Builder:
     t = v[0]
     if t == 'badrepr':
       return BadRepr()
+    if t == 'float':
+      return float(v[1])
     if t == 'obj':
       return ginm.Opaque(v[1])
     if t in ('ref', 'macro'):
